@@ -392,7 +392,7 @@ func checkRecordPattern(c *Ctx, r *Report) {
 						env := map[types.Object]*Val{roles["n"]: vint(n), roles["cp"]: vint(cp), roles["end"]: vint(end), roles["i"]: vint(i)}
 						v, err := c.rpfExpr(p, exitIf.Cond, env, nil)
 						if err != nil {
-							bad = err.Error()
+							bad = "?" + err.Error()
 							break
 						}
 						okState := cp == n || (cp == n-1 && i == end)
@@ -404,7 +404,7 @@ func checkRecordPattern(c *Ctx, r *Report) {
 				}
 			}
 		}
-		if bad != "" && bad[0] == '/' {
+		if bad != "" && bad[0] == '?' {
 			r.Undecided("M-RECORD", key+".row-ended", c.pos(exitIf.Pos()), bad)
 		} else {
 			r.Check(bad == "", "M-RECORD", key+".row-ended", c.pos(exitIf.Pos()), bad)
